@@ -189,6 +189,9 @@ class Conventions:
         for l in (4, 5, 10) + ((6, 8) if tier == "thorough" else ()):
             out.append(dict(l=l, what="cart-random", n=5 if (l < 10 or tier == "thorough") else 2))
             out.append(dict(l=l, what="label-random", n=5 if (l < 10 or tier == "thorough") else 2))
+        # both conventions at once: a permuted Cartesian order TOGETHER with permuted / negated labels, from either side
+        for l in (1, 2, 3, 4) + ((5, 6, 10) if tier == "thorough" else ()):
+            out.append(dict(l=l, what="joint-random", n=(12 if l <= 2 else 6) if tier == "quick" else 40))
         out.append(dict(l=2, what="rejects"))
         return out
 
@@ -241,6 +244,22 @@ class Conventions:
                 rng.shuffle(perm)
                 signs = [rng.choice((1, -1)) for _ in range(nsph)]
                 check_labels(perm, signs, "labrand%d" % k)
+        elif what == "joint-random":
+            for k in range(shape["n"]):
+                cperm = list(range(ncart))
+                rng.shuffle(cperm)
+                lperm = list(range(nsph))
+                rng.shuffle(lperm)
+                signs = [rng.choice((1, -1)) for _ in range(nsph)]
+                if k == 0:
+                    signs = [-1] * nsph  # every label negated
+                labs = tuple(("-" if signs[i] < 0 else "") + lab0[lperm[i]] for i in range(nsph))
+                T = gt(l, cart0[cperm], labs, "left")
+                T2 = gt(l, cart0[cperm], labs, "right")
+                for mu in range(nsph):
+                    for c in range(ncart):
+                        M.eq("conv/joint%d%s" % (k, tag((mu, c))), T[mu, c], base[lperm[mu], cperm[c]] * signs[mu])
+                        M.eq("conv/joint%d/right%s" % (k, tag((mu, c))), T2[c, mu], base[lperm[mu], cperm[c]] * signs[mu])
         elif what == "rejects":
             E = (TypeError, ValueError)
             M.raises("conv/rejects/missing-label", lambda: gt(2, cart0, ("s2", "s1", "c0", "c1"), "left"), ValueError)
